@@ -34,14 +34,19 @@ from common import close
 
 REQUIRED = ['slots_last', 'guard_complete', 'results_guard', 'results_guard_nofit', 'fitted_isSome_iff',
             'spec_accepted', 'error_keeps_state', 'refit_fresh', 'lastSpecs_mem', 'history_independent',
-            'clean_calm', 'normalize_short', 'calm_needed', 'tables_wf', 'tables_all']
+            'clean_calm', 'normalize_short', 'calm_needed', 'tables_wf', 'tables_all', 'observer_keeps_state',
+            'observers_erasable', 'spec_order_irrelevant']
 RULE = ('per estimator class and configuration cell (outcome type x missing outcomes x weights x standardize / '
         'generalize ...) a random data set (n 150-300) and (a) the guard stream: every method on a fresh object and '
         'after every single specification; (b) random call histories of 3-8 (quick) / 4-14 (thorough) calls mixing '
         're-specification with other formulas / bounds / stabilisation / custom models, refits with other plans / '
         'p / solver, summaries and diagnostics in any order with repeats.  One case = one call of one history; '
         'distinct = distinct (class, cell, call list prefix); non-trivial = the call follows at least one '
-        're-specification or refit (the canonical list is shorter than the history).')
+        're-specification or refit (the canonical list is shorter than the history).  (c) the refit run: one '
+        'specification, refits small -> large -> small with observers between them; (d) the observer stream: the '
+        'specification calls in reverse of the documented order (labelled additive models: descending label) with a '
+        'reporting / diagnostic / plotting call after each, observers before and after the fit.  After every observer '
+        'call every public attribute of the object and every container handed out earlier is compared exactly.')
 ASSUMPTIONS = ['statsmodels GLM/GEE fits and predictions are deterministic functions of (formula, data, weights): '
                'refitting the same model on the same data is bit-identical (measured per data set, gate H)',
                'np.random.seed(s) makes the Monte Carlo draws of StochasticTMLE / fit_stochastic / '
@@ -100,6 +105,78 @@ class Watch:
                 out.append(name)
                 self.items[j] = (name, obj, now)
         return out
+
+
+def state_snap(x, depth=0):
+    """exact snapshot of one attribute of an estimator object.  Data (frames, arrays, lists, scalars, graphs) by value;
+    any other object (a fitted statsmodels result, a learner) by identity, type and -- when it has them -- its fitted
+    coefficients: reading such an object may fill its private caches, replacing it or refitting it is a change."""
+    if isinstance(x, (pd.DataFrame, pd.Series, pd.Index, np.ndarray, str, bytes, int, float, bool, type(None),
+                      np.generic)) or type(x).__module__.startswith('networkx'):
+        return snap(x)
+    if isinstance(x, (list, tuple)) and depth < 4:
+        return ('seq', type(x).__name__, [state_snap(v, depth + 1) for v in x])
+    if isinstance(x, (set, frozenset)) and depth < 4:
+        return ('set', sorted(repr(state_snap(v, depth + 1)) for v in x))
+    if isinstance(x, dict) and depth < 4:
+        return ('dict', sorted((repr(k), repr(state_snap(v, depth + 1))) for k, v in x.items()))
+    par = getattr(x, 'params', None)
+    coef = getattr(x, 'coef_', None) if par is None else par
+    try:
+        coef = None if coef is None or callable(coef) else np.asarray(coef, dtype=float).tobytes()
+    except (TypeError, ValueError):
+        coef = None
+    return ('object', type(x).__name__, id(x), coef)
+
+
+def public_state(spec, obj):
+    """every public attribute of the object (and the result attributes the spec lists), exactly.  The object's private
+    working copy of the data (`spec.stored`) column by column: see `state_moved`."""
+    names = sorted({a for a in vars(obj) if not a.startswith('_')} | set(spec.obs))
+    out = {}
+    for a in names:
+        v = getattr(obj, a, '<absent>')
+        if a in spec.stored and isinstance(v, pd.DataFrame):
+            out[a] = ('frame', id(v), snap(v.index),
+                      {str(c): (str(v[c].dtype) if isinstance(v[c], pd.Series) else 'dup', snap(v[c].to_numpy(copy=True)))
+                       for c in v.columns})
+        else:
+            out[a] = state_snap(v)
+    return out
+
+
+def state_moved(prev, cur, scratch, allowed=()):
+    """names of the public attributes that differ between two `public_state`s.  In the object's private working frame a
+    reporting call may add a scratch column of its own (`_ipfw_` of IPTW.positivity) and overwrite it at its next call:
+    columns first introduced by a reporting call are collected in `scratch` and not judged; every other column (the
+    caller's data, the columns the specification / fit calls stored), the index and the identity of the frame are."""
+    out = []
+    for a in sorted(set(prev) | set(cur)):
+        p, c = prev.get(a), cur.get(a)
+        if a in allowed or p == c:
+            continue
+        if p is not None and c is not None and p[0] == 'frame' and c[0] == 'frame':
+            if p[1] != c[1] or p[2] != c[2]:
+                out.append(a + (' (index)' if p[1] == c[1] else ' (another frame)'))
+                continue
+            scratch |= {(a, k) for k in c[3] if k not in p[3]}
+            bad = sorted(k for k in p[3] if (a, k) not in scratch and p[3][k] != c[3].get(k))
+            if bad:
+                out.append('%s (columns %s)' % (a, ', '.join(bad)))
+            continue
+        out.append(a)
+    return out
+
+
+def handed_out(spec, obj):
+    """(attribute, object) for every mutable container reachable through a public attribute: what a user may have
+    taken from the object and still hold (a result vector, a table, a list of per-partition estimates)"""
+    out = []
+    for a in sorted({a for a in vars(obj) if not a.startswith('_')} | set(spec.obs)):
+        v = getattr(obj, a, None)
+        if isinstance(v, (pd.DataFrame, pd.Series, np.ndarray, list, dict)):
+            out.append((a, v))
+    return out
 
 
 # ------------------------------------------------------------------------------------------ canonical values
@@ -258,6 +335,29 @@ def gen_long(rng, nid, T=4):
     return df.sample(frac=1.0, random_state=int(rng.integers(0, 2 ** 31))).reset_index(drop=True)   # shuffled rows
 
 
+def gen_long_tv(rng, nid, T=4):
+    """person-period table with TWO time-varying covariates: L (binary) and V (continuous), and the functional forms the
+    covariate models' `recode` strings re-create during the simulation: Vhi = 1[V > 0], Lx = L * L1"""
+    rows = []
+    for i in range(nid):
+        L1 = int(rng.binomial(1, 0.5))
+        L2 = round(float(rng.normal()), 3)
+        A = int(rng.binomial(1, expit(-0.2 + 0.6 * L1 - 0.3 * L2)))
+        tv = int(rng.binomial(1, 0.4))
+        v = round(float(rng.normal(0.2 * L1, 1.0)), 3)
+        last = int(rng.integers(1, T + 1)) if rng.uniform() < 0.35 else T      # censoring time
+        for t in range(1, last + 1):
+            vhi = int(v > 0)
+            d = int(rng.binomial(1, expit(-2.3 + 0.7 * A + 0.4 * L1 + 0.3 * L2 + 0.4 * tv + 0.7 * vhi)))
+            rows.append((i, t - 1, t, A, L1, L2, tv, v, vhi, tv * L1, d))
+            if d:
+                break
+            tv = int(rng.binomial(1, expit(-0.5 + 1.0 * tv + 0.4 * A + 0.5 * vhi)))
+            v = round(float(0.5 * v + 0.4 * tv - 0.3 * A + rng.normal(0, 0.8)), 3)
+    df = pd.DataFrame(rows, columns=['id', 'enter', 't', 'A', 'L1', 'L2', 'L', 'V', 'Vhi', 'Lx', 'd'])
+    return df.sample(frac=1.0, random_state=int(rng.integers(0, 2 ** 31))).reset_index(drop=True)   # shuffled rows
+
+
 def gen_flat(rng, nid, T=5):
     """one row per person (IPCW flat_df=True): id, follow-up time t, event d, baseline covariates; rows unsorted"""
     L1 = rng.binomial(1, 0.5, nid)
@@ -350,8 +450,9 @@ USER_OBJECTS = {}   # other objects of the user handed to calls (arrays, graphs)
 class M:
     """a public method: id in the Lean class table, kind, how to draw arguments, how to call it"""
 
-    def __init__(self, mid, name, kind, gen, call, once=False):
+    def __init__(self, mid, name, kind, gen, call, once=False, result=()):
         self.mid, self.name, self.kind, self.gen, self.call, self.once = mid, name, kind, gen, call, once
+        self.result = tuple(result)     # public attributes a result-reading method is documented to (re)compute
 
 
 def noargs(rng, cell):
@@ -741,26 +842,46 @@ def mk_specs():
         np.random.seed(a.pop('seed'))
         return o.fit(**a)
 
+    # add_covariate_model is additive and *labelled*: "covariate models are fit in the order from lowest to highest
+    # label".  One method variant per label (each called at most once per object: a second call with the same label
+    # would add a second model, it does not re-specify); the cell decides which covariate carries the lower label.  The
+    # result of a specification must depend on the labels only, not on the order in which the calls were made.
+    def g_cov(k):
+        def g(r, c):
+            cov = c['first'] if k == 0 else ('V' if c['first'] == 'L' else 'L')
+            if cov == 'L':
+                a = {'label': k + 1, 'covariate': 'L', 'model': pick(r, ['A + L1 + Vhi', 'A + L1 + enter + Vhi', 'L1 + V']),
+                     'recode': pick(r, [None, "g['Lx'] = g['L'] * g['L1'];", "g['Lx'] = g['L'] * g['L1'];",
+                                        "g['Lx'] = np.where(g['L1'] == 1, g['L'], 0);"]),
+                     'var_type': 'binary'}
+            else:
+                a = {'label': k + 1, 'covariate': 'V', 'model': pick(r, ['A + L + L2', 'L + Lx + enter', 'A + L1 + L']),
+                     'recode': pick(r, ["g['Vhi'] = np.where(g['V'] > 0, 1, 0);",
+                                        "g['V'] = np.clip(g['V'], -2, 2); g['Vhi'] = np.where(g['V'] > 0, 1, 0);",
+                                        "g['Vhi'] = (g['V'] > 0).astype(int);", None]),
+                     'var_type': 'continuous'}
+            a['print_results'] = False
+            return a, False
+        return g
+
     S['MonteCarloGFormula'] = Spec(
-        'MonteCarloGFormula', product(weights=[None]),
-        lambda rng, c, n: gen_long(rng, max(60, n // 3)),
-        lambda df, c: MonteCarloGFormula(df[['id', 'enter', 't', 'A', 'L1', 'L2', 'L', 'd']], idvar='id',
-                                         exposure='A', outcome='d', time_in='enter', time_out='t'),
+        'MonteCarloGFormula', product(weights=[None], first=['L', 'V']),
+        lambda rng, c, n: gen_long_tv(rng, max(60, n // 3)),
+        lambda df, c: MonteCarloGFormula(df[['id', 'enter', 't', 'A', 'L1', 'L2', 'L', 'V', 'Vhi', 'Lx', 'd']],
+                                         idvar='id', exposure='A', outcome='d', time_in='enter', time_out='t'),
         [M(0, 'exposure_model', 'spec',
-           lambda r, c: ({'model': pick(r, ['L1 + L', 'L1 + L2 + L', 'L + enter']),
+           lambda r, c: ({'model': pick(r, ['L1 + L + Vhi', 'L1 + L2 + L + Lx', 'L + Vhi + enter']),
                           'restriction': pick(r, [None, None, "g['enter']==0"]), 'print_results': False}, False),
            kw('exposure_model')),
          M(1, 'outcome_model', 'spec',
-           lambda r, c: ({'model': 'A + ' + pick(r, ['L1 + L', 'L1 + L2 + L + enter', 'L + enter']),
+           lambda r, c: ({'model': 'A + ' + pick(r, ['L1 + L + Vhi', 'L1 + L2 + L + Vhi + enter', 'L + Lx + Vhi']),
                           'print_results': False}, False), kw('outcome_model')),
          M(2, 'censoring_model', 'spec',
            lambda r, c: ({'model': pick(r, ['A + L1', 'A + L + enter']), 'print_results': False}, False),
            kw('censoring_model')),
-         M(3, 'add_covariate_model', 'spec',
-           lambda r, c: ({'label': 1, 'covariate': 'L', 'model': pick(r, ['A + L1', 'A + L1 + enter']),
-                          'var_type': 'binary', 'print_results': False}, False), kw('add_covariate_model'),
-           once=True),       # documented as additive ("models are added by repeated calls"), not a re-specification
-         M(4, 'fit', 'fit',
+         M(3, 'add_covariate_model(label=1)', 'spec', g_cov(0), kw('add_covariate_model'), once=True),
+         M(4, 'add_covariate_model(label=2)', 'spec', g_cov(1), kw('add_covariate_model'), once=True),
+         M(5, 'fit', 'fit',
            lambda r, c: ({'treatment': pick(r, ['all', 'none', 'natural', "g['L']==1"]), 'sample': int(pick(r, [150, 300])),
                           't_max': pick(r, [None, 3]), 'seed': int(r.integers(1, 10 ** 6))}, False), call_mcfit)],
         ['predicted_outcomes'], {'fit': ['exposure_model', 'outcome_model']})
@@ -805,7 +926,8 @@ def mk_specs():
         gen_measure, lambda df, c: getattr(zepid, c['cls'])(),
         [M(0, 'fit', 'fit', lambda r, c: ({'exposure': pick(r, ['A', 'A2']), 'outcome': 'Y', 'time': 't',
                                            'rate': c['cls'].startswith('Incidence')}, False), call_mfit, once=True),
-         M(1, 'summary', 'res', lambda r, c: ({'decimal': int(pick(r, [1, 3]))}, False), kw('summary'))],
+         M(1, 'summary', 'res', lambda r, c: ({'decimal': int(pick(r, [1, 3]))}, False), kw('summary')),
+         M(2, 'plot', 'res', noargs, kw('plot'))],        # (NNT has no plot method: AttributeError on every object alike)
         ['results', 'risks', 'incidence_rate', '_missing_e', '_missing_d', '_missing_ed', 'n'], {'fit': []},
         lean_name=None)
 
@@ -860,7 +982,10 @@ def mk_specs():
          M(4, 'assess_misdirections', 'read',
            lambda r, c: ({'chosen_adjustment_set': sorted(r.choice(['W', 'V', 'Z'], int(r.integers(0, 3)),
                                                                  replace=False).tolist())}, False),
-           lambda o, a: o.assess_misdirections(chosen_adjustment_set=set(a['chosen_adjustment_set'])))],
+           lambda o, a: o.assess_misdirections(chosen_adjustment_set=set(a['chosen_adjustment_set'])),
+           result=('arrow_misdirections',)),
+         M(5, 'draw_dag', 'read', lambda r, c: ({'invert': bool(r.uniform() < 0.3)}, False),
+           lambda o, a: None if o.draw_dag(**a) is None else 'axes')],
         ['adjustment_sets', 'minimal_adjustment_sets', 'dag'], {'calculate_adjustment_sets': []},
         lean_name=None, in_force=dag_in_force, glm=False, stored=())
 
@@ -909,8 +1034,9 @@ def mk_specs():
         return call
 
     def g_cfit(r, c):
+        # (two or three partitions: the diagnostic plot is a kernel density of the per-partition estimates)
         return {'n_splits': int(pick(r, [2, 3, 4, 5] if c['cls'].startswith('Single') else [3, 4, 5])),
-                'n_partitions': int(pick(r, [1, 2])), 'method': pick(r, ['median', 'mean']),
+                'n_partitions': int(pick(r, [2, 2, 3])), 'method': pick(r, ['median', 'mean']),
                 'random_state': int(pick(r, [0, 0, 7, 12345]))}, False
 
     CF = {'SingleCrossfitAIPTW': SingleCrossfitAIPTW, 'DoubleCrossfitAIPTW': DoubleCrossfitAIPTW,
@@ -922,9 +1048,12 @@ def mk_specs():
         [M(0, 'exposure_model', 'spec', g_cexp, with_est('exposure_model')),
          M(1, 'outcome_model', 'spec', g_cout, with_est('outcome_model')),
          M(2, 'fit', 'fit', g_cfit, kw('fit')),
-         M(3, 'summary', 'res', noargs, kw('summary'))],
-        ['risk_difference', 'risk_difference_se', 'risk_difference_ci', 'risk_difference_vector', 'risk_ratio',
-         'risk_ratio_se', 'risk_ratio_ci', 'risk_ratio_vector', 'ace', 'ace_se', 'ace_ci', 'ace_vector'],
+         M(3, 'summary', 'res', noargs, kw('summary')),
+         M(4, 'run_diagnostics', 'read', noargs, lambda o, a: o.run_diagnostics())],
+        ['risk_difference', 'risk_difference_se', 'risk_difference_ci', 'risk_difference_vector',
+         'risk_difference_var_vector', 'risk_ratio', 'risk_ratio_se', 'risk_ratio_ci', 'risk_ratio_vector',
+         'risk_ratio_var_vector', 'odds_ratio', 'odds_ratio_se', 'odds_ratio_ci', 'odds_ratio_vector',
+         'odds_ratio_var_vector', 'ace', 'ace_se', 'ace_ci', 'ace_vector', 'ace_var_vector'],
         {'fit': ['exposure_model', 'outcome_model']}, lean_name=lambda c: c['cls'])     # one generated table per class
     S['Crossfit'].quick_cells = 2
     return S
@@ -967,16 +1096,6 @@ def observe(spec, obj, user_cols=()):
     return out
 
 
-def result_objects(spec, obj):
-    """the array-like objects a user can hold on to after a call (public result attributes)"""
-    out = []
-    for a in spec.obs:
-        v = getattr(obj, a, None)
-        if isinstance(v, (pd.DataFrame, pd.Series, np.ndarray)):
-            out.append((a, v))
-    return out
-
-
 def user_columns(df):
     return list(df.columns) if isinstance(df, pd.DataFrame) else []
 
@@ -995,15 +1114,24 @@ class Fresh:
         self.spec, self.df, self.cell, self.watch, self.chk, self.tag = spec, df, cell, watch, chk, tag
         self.cache = {}
         self.calls = {}
+        self.live = {}         # call list -> the object on which exactly that list was run and nothing since
         self.runs = 0
 
     def run_list(self, calls):
-        """-> (result of every call, public attributes at the end)"""
+        """-> (result of every call, public attributes at the end).  A fresh object on which exactly `calls` are made;
+        when the list extends, by one call, a list that was run before and whose object was not used since, that object
+        is continued (it is the fresh object after the first len-1 calls) instead of repeating them."""
         key = tuple(opkey(o) for o in calls)
         if key not in self.cache:
-            obj = make(self.spec, self.df, self.cell)
-            res = [do_call(self.spec, obj, o) for o in calls]
+            got = self.live.pop(key[:-1], None) if len(key) > 1 else None
+            if got is not None:
+                obj, res = got[0], list(got[1]) + [do_call(self.spec, got[0], calls[-1])]
+                self.chk.count('fresh_object_continued')
+            else:
+                obj = make(self.spec, self.df, self.cell)
+                res = [do_call(self.spec, obj, o) for o in calls]
             self.cache[key] = (res, observe(self.spec, obj, user_columns(self.df)))
+            self.live[key] = (obj, res)
             self.calls[key] = list(calls)
             self.runs += 1
             bad = self.watch.changed() + ARG_MUTATIONS[:]
@@ -1118,9 +1246,11 @@ def run_history(chk, drv, spec, cell, df, dseed, ops, tag, judge_every=True, nge
     recs = []
     ucols = user_columns(df)
     held = []          # result objects the user may still hold from earlier calls: (description, object, snapshot)
-    born = [o for _, o in result_objects(spec, obj)]     # tables the object keeps from construction on are not results
+    born = [o for _, o in handed_out(spec, obj)]         # tables the object keeps from construction on are not results
                                                          # *of a call*; they are compared with the fresh object instead
     prev_obs = observe(spec, obj, ucols)
+    prev_pub = public_state(spec, obj)
+    scratch = set()    # (stored frame, column) introduced by a reporting call: its own working column
     for i, op in enumerate(ops):
         res = do_call(spec, obj, op)
         obs = observe(spec, obj, ucols)
@@ -1141,21 +1271,27 @@ def run_history(chk, drv, spec, cell, df, dseed, ops, tag, judge_every=True, nge
         chk.d(not bad, 'call leaves the caller\'s data unchanged (%s.%s)' % (spec.name, op['name']),
               dict(case, changed=bad), signature=ksig)
         # ---- D1b: result objects handed out by earlier calls are not rewritten behind the user's back
-        rewritten = [d for d, o, sn in held if snap(o) != sn]
+        rewritten = [d for d, o, sn in held if state_snap(o) != sn]
         chk.count('nonmutation_checks')
         chk.d(not rewritten, 'call leaves the result objects of earlier calls unchanged (%s.%s)'
               % (spec.name, op['name']), dict(case, changed=rewritten), signature=ksig)
         held = [(d, o, sn) for d, o, sn in held if d not in rewritten]
-        for a, o in result_objects(spec, obj):
-            if not any(o is h[1] for h in held) and not any(o is b for b in born):
-                held.append(('%s after call %d (%s)' % (a, i, op['name']), o, snap(o)))
-        # ---- D1c: summaries / diagnostics / plots and calls that raise do not change the results or the stored data
+        for a, o in handed_out(spec, obj):
+            if a not in spec.stored and not any(o is h[1] for h in held) and not any(o is b for b in born):
+                held.append(('%s after call %d (%s)' % (a, i, op['name']), o, state_snap(o)))
+        # ---- D1c: summaries / diagnostics / plots and calls that raise do not change the results or the stored data;
+        # a reporting / diagnostic / plotting call (raising or not) leaves *every* public attribute exactly as it was
+        pub = public_state(spec, obj)
         if op['kind'] in ('read', 'res') or res[0] == 'err':
             moved = [a for a in obs if not same_val(obs[a], prev_obs.get(a))]
+            if op['kind'] in ('read', 'res'):
+                moved += ['public attribute ' + a for a in state_moved(prev_pub, pub, scratch,
+                                                                        spec.methods[op['mid']].result)
+                          if a not in moved]
             chk.d(not moved, '%s.%s (%s) leaves results and stored data as they were'
                   % (spec.name, op['name'], 'raised' if res[0] == 'err' else 'read-only'), dict(case, differs=moved),
                   signature=ksig)
-        prev_obs = obs
+        prev_obs, prev_pub = obs, pub
         # ---- D2: results before the required specifications raise
         if op['kind'] == 'fit':
             need = spec.fit_req[op['name']]
@@ -1172,7 +1308,9 @@ def run_history(chk, drv, spec, cell, df, dseed, ops, tag, judge_every=True, nge
         elif model is not None:
             chk.k(model[i]['ok'] == (res[0] == 'ok'), '%s.%s raises iff the model says so' % (spec.name, op['name']),
                   dict(case, model=model[i]))
-        judge = judge_every or op['kind'] != 'spec' or i == len(ops) - 1 or res[0] == 'err'
+        # (`judge: False` = an observer placed in a structured history for what it may do to the object: non-mutation
+        # and the model's raise / no-raise prediction are judged here, its own output against a fresh object elsewhere)
+        judge = op.get('judge', True) and (judge_every or op['kind'] != 'spec' or i == len(ops) - 1 or res[0] == 'err')
         if judge:
             # ---- D3: history object == fresh object given the last specification (Python rule, no model)
             d_pre = py_normalize(spec, recs)
@@ -1205,7 +1343,10 @@ run_history.fresh = {}
 
 ENV_ERRORS = ('only 0-dimensional arrays can be converted to Python scalars',      # float(ndarray of size 1), numpy >= 2.x
               "unexpected keyword argument 'labels'",                                # Axes.boxplot(labels=), matplotlib >= 3.11
-              "module 'numpy' has no attribute 'str'")       # GEstimationSNM.summary after fit(solver='search'): np.str
+              "module 'numpy' has no attribute 'str'",       # GEstimationSNM.summary after fit(solver='search'): np.str
+              'array must not contain infs or NaNs')   # scipy's gaussian_kde in the cross-fit diagnostic plot when a
+                                                       # per-partition estimate is not finite (the user's warm-start SGD
+                                                       # learner diverged): a failure on the values, not a guard
 
 
 def probe_unavailable(rng, spec, cell, df):
@@ -1282,7 +1423,7 @@ def guard_stream(rng, spec, cell):
 
 PLAIN = {'bound': (False, None), 'custom_model': (None,), 'stabilized': (True,), 'model_numerator': ('1', None),
          'continuous_distribution': ('gaussian',), 'predict_missing': (True,), 'restriction': (None,),
-         'conditional': (None,), 'solver': ('closed',), 'starting_value': (None,), 't_max': (None,)}
+         'conditional': (None,), 'solver': ('closed',), 'starting_value': (None,), 't_max': (None,), 'recode': (None,)}
 
 
 def richness(op):
@@ -1295,7 +1436,7 @@ def variant(rng, m, cell, rich):
     return (max if rich else min)(cands, key=richness)
 
 
-def refit_stream(rng, spec, cell, refits=4):
+def refit_stream(rng, spec, cell, refits=4, reverse_c=False):
     """structured histories: (A) every model specified with all optional features (bound, custom model,
     unstabilised, numerator, ...), fitted, then re-specified plainly and refitted -- options of an earlier
     specification must not survive; (B) plain specification, fit, refit with other arguments, then each model
@@ -1309,7 +1450,20 @@ def refit_stream(rng, spec, cell, refits=4):
     a += [variant(rng, m, cell, False) for m in specs if not m.once] + [variant(rng, fits[-1], cell, False)]
     a += [new_op(rng, m, cell) for m in reads]
     b = [variant(rng, m, cell, False) for m in specs]
-    b += [variant(rng, fits[0], cell, False), new_op(rng, fits[-1], cell)] + [new_op(rng, m, cell) for m in res]
+    b += [variant(rng, fits[0], cell, False)]
+    # plan sweep: one fit for every value of every categorical (string / bool) argument the fit generators offer -- every
+    # kind of plan ('all', 'none', 'natural', a custom expression), solver, distribution, switch -- before the models
+    # are re-specified below: whatever a kind of plan leaves in the object must not reach the re-specified model or the
+    # next fit.  (Not compared with fresh objects themselves: the judged calls that follow are.)
+    seen = {(b[-1]['mid'], k, repr(v)) for k, v in b[-1]['args'].items() if isinstance(v, (str, bool))}
+    for m in fits:
+        for _ in range(16):
+            o = new_op(rng, m, cell)
+            new = {(m.mid, k, repr(v)) for k, v in o['args'].items() if isinstance(v, (str, bool))} - seen
+            if new and sum(1 for x in b if x.get('judge') is False) < 4:
+                b.append(light(o))
+                seen |= new
+    b += [new_op(rng, fits[-1], cell)] + [new_op(rng, m, cell) for m in res]
     for m in specs:
         if not m.once:
             b += [variant(rng, m, cell, True), new_op(rng, pick(rng, fits), cell)] + [new_op(rng, x, cell) for x in res]
@@ -1324,9 +1478,61 @@ def refit_stream(rng, spec, cell, refits=4):
     cands = [new_op(rng, pick(rng, fits), cell) for _ in range(6)]
     lo, hi = min(cands, key=size), max(cands, key=size)
     run_ = [lo, hi, copy.deepcopy(lo)] + [new_op(rng, pick(rng, fits), cell) for _ in range(max(0, refits - 3))]
-    c += run_[:max(refits, 3)]          # small -> large -> small again, then random
+    run_ = run_[:max(refits, 3)]          # small -> large -> small again, then random
+    # ... with the reporting / diagnostic / plotting methods called between the refits: they must leave the object (all
+    # public attributes, everything handed out by the earlier fits) as it was, and the next refit must not see them
+    c += run_[:2] + [light(new_op(rng, m, cell)) for m in some(rng, reads, 4)] + run_[2:]
     c += [new_op(rng, m, cell) for m in res]
+    if reverse_c:
+        # (expensive classes, quick tier: this is their only multi-call history -- the specification calls are made in
+        # reverse of the documented order; the fresh objects receive them in the documented order)
+        k = len(specs)
+        c[:k] = c[:k][::-1]
     return [a, b, c]
+
+
+def light(op):
+    op['judge'] = False
+    return op
+
+
+def some(rng, xs, k):
+    """up to k distinct elements of xs, in random order"""
+    return [xs[int(j)] for j in rng.permutation(len(xs))[:k]]
+
+
+def observer_stream(rng, spec, cell, which, every):
+    """The result of a specification depends on WHAT was specified, not on the order in which independent specification
+    calls were made, nor on reporting / diagnostic / plotting calls made in between.  One history: the specification
+    methods in an order other than the documented one (which = 0: reversed, so that every pair is out of order;
+    otherwise a random non-identity permutation), an observer after each of them; observers between specification and
+    fit; fit; observers after fit; every result-reading method.  The fit and the reports are compared with a fresh
+    object that received the specifications in documented order (labelled additive models: ascending label) and no
+    observer call; every observer must leave every public attribute and everything handed out earlier exactly as it was
+    (`every`: all observers in both positions, otherwise three drawn at random)."""
+    ms = spec.methods
+    specs = [m for m in ms if m.kind == 'spec']
+    fits = [m for m in ms if m.kind == 'fit']
+    reads = [m for m in ms if m.kind in ('res', 'read')]
+    res = [m for m in ms if m.kind == 'res']
+    order = specs[::-1]
+    if which and len(specs) > 2:
+        for _ in range(20):
+            order = [specs[int(j)] for j in rng.permutation(len(specs))]
+            if order != specs and order != specs[::-1]:
+                break
+    ops = []
+    for m in order:
+        # (additive, labelled models with all their optional features -- a `recode` string each -- so that a model paired
+        # with another label's options shows; the other specifications rich or plain at random)
+        ops.append(variant(rng, m, cell, bool(m.once or rng.uniform() < 0.5)))
+        if reads:
+            ops.append(light(new_op(rng, pick(rng, reads), cell)))
+    ops += [light(new_op(rng, m, cell)) for m in (reads if every else some(rng, reads, 3))]
+    ops.append(new_op(rng, pick(rng, fits), cell))
+    ops += [light(new_op(rng, m, cell)) for m in (reads if every else some(rng, reads, 3))]
+    ops += [new_op(rng, m, cell) for m in res[:2]]
+    return ops
 
 
 def h_gate(chk, df, formula, family='binomial'):
@@ -1486,6 +1692,14 @@ def function_sweep(chk, rng):
         add('tmle_calculator(%s)' % meas,
             (lambda meas: lambda y, a, pa, pn, p1, sp: tmle_calc(y, a, pa, pn, p1, sp, meas))(meas),
             yb, ab, q1, q0, g1, spl, kinds=['ndarray'])
+    # ---- public static helpers of StochasticTMLE (called with the caller's arrays)
+    from zepid.causal.doublyrobust import StochasticTMLE
+    add('StochasticTMLE.est_marginal_variance',
+        lambda h, y, q, qs: StochasticTMLE.est_marginal_variance(h, y, q, qs, 0.4), 1 / g1, yb, q1, q0)
+    add('StochasticTMLE.est_conditional_variance',
+        lambda h, y, q: StochasticTMLE.est_conditional_variance(h, y, q), 1 / g1, yb, q1)
+    add('StochasticTMLE.targeting_step',
+        lambda y, q, w: StochasticTMLE.targeting_step(y, q, w, False), yb, q1, 1 / g1, kinds=['ndarray'])
     # ---- base.py, graphics
     add('spline', lambda d: zepid.spline(d, 'L2', n_knots=3, term=2, restricted=True), frame=df)
     add('create_spline_transform', lambda v: zepid.create_spline_transform(v, n_knots=3, term=2, restricted=True)[1],
@@ -1805,6 +2019,13 @@ def run(chk, drv, rng, tier):
                   {'class': spec.name, 'cell': cell, 'dseed': dseed, 'n': n, 'changed': bad},
                   signature=spec.known([{'args': {'custom_model': 'any'}}])
                   if (spec.known and bad and all(b.startswith('learner ') for b in bad)) else None)
+            if ci == 0:
+                o0 = make(spec, df, cell)
+                drove = {m.name.split('(')[0] for m in spec.methods}
+                left = sorted(k for k in dir(type(o0)) if not k.startswith('_') and callable(getattr(type(o0), k, None))
+                              and k not in drove and not isinstance(type(o0).__dict__.get(k), staticmethod))
+                if left:      # (static helpers are called by the function sweep)
+                    chk.extra.setdefault('public_methods_not_driven', {})[cname + ':' + type(o0).__name__] = left
             cells_done.append({'class': cname, 'cell': cell, 'n': len(df),
                                'unavailable_in_environment': {spec.methods[k].name: v for k, v in una.items()}})
             chk.h_checked += 1
@@ -1812,8 +2033,11 @@ def run(chk, drv, rng, tier):
             heavy = bool(spec.quick_cells)       # cross-fit estimators: every fit is (partitions x splits x 2) learner fits
             if ci == 0 or (not quick and ci < 4):      # the guards do not depend on the cell beyond `miss`
                 hs += [(ops, True) for ops in guard_stream(rng, spec, cell) if not (heavy and len(ops) > 1)]
-            hs += [(ops, True) for ops in refit_stream(rng, spec, cell, refits=3 if (heavy and quick) else 4)
+            hs += [(ops, True) for ops in refit_stream(rng, spec, cell, refits=3 if (heavy and quick) else 4,
+                                                        reverse_c=heavy and quick)
                    ][(2 if (heavy and quick) else 0):]        # expensive classes, quick tier: the refit run only
+            if not (heavy and quick) and (ci < 2 or not quick):
+                hs.append((observer_stream(rng, spec, cell, ci, every=not quick), False))
             for _ in range((0 if heavy else 1) if quick else (1 if heavy else 4)):
                 length = int(rng.integers(3, 9)) if quick else int(rng.integers(4, 15))
                 hs.append((gen_ops(rng, spec, cell, length), not quick))
@@ -1826,6 +2050,7 @@ def run(chk, drv, rng, tier):
                 chk.extra.get('class_wall_s', {}).get(cname, 0) + time.time() - t_cls, 1)
             t_cls = time.time()
     chk.extra['nonmutation_checks'] = chk.dist.get('nonmutation_checks', 0)
+    chk.extra.setdefault('public_methods_not_driven', {})
     chk.extra['cells'] = cells_done
     chk.extra['classes'] = QUICK_CLASSES
     chk.extra['exhaustive'] = False
